@@ -20,6 +20,7 @@ DEVICES = 8
 WORKERS = 4
 TECHNIQUE = 'exhaustive enumeration of device-mesh factorisations (schedules) x strategies x one-hot / basis inputs on forced host devices; differential oracle vs the single-device computation'
 ASSUMPTIONS = [
+    'implicit operators and whole steps run on the mesh with base_shape_multiple=1 so that every x / y shard holds resolved coefficients of the small grid; the library default multiple (8) is covered by the Grid-operation units on a grid large enough to populate the second (thorough: every) shard',
     'XLA CPU collectives on forced host devices emulate the accelerator collectives (same SPMD program, single lock-step schedule)',
     'linearity of einsum / cumsum / grid operations (one-hot and basis inputs determine them); whole steps are a lattice statement',
     'level counts must be divisible by the z axis for whole model steps and z-sharded vertical operators (shard_map requirement); the Grid operations pad internally and are checked with indivisible level counts',
@@ -28,6 +29,8 @@ RULE = ('case = (mesh shape, component, options); transitions = one-hot / basis 
         'a documented rejection (odd x/y axis) is a case with outcome "rejected"')
 
 SHAPE = (5, 6, 16, 8)     # (M, L, nlon, nlat)
+MID_SHAPE = (11, 12, 36, 18)      # populates the second x / y shard under the default shape multiple 8
+LARGE_SHAPE = (26, 27, 80, 40)    # populates all four x / y shards under the default shape multiple 8 (thorough)
 
 
 def meshes(maxdev):
@@ -186,19 +189,45 @@ def _cumsum_unit(unit, rec):
 
 # -- (iii) Grid operations on a mesh ---------------------------------------------------------------------
 
+def _grid_variants(shape, full):
+  """(tag, grid shape, base_shape_multiple).  With the library default (multiple 8 on a mesh) a small grid lives entirely
+  on the first shard of the x and y axes -- the other shards would hold nothing but padding -- so the small grid is
+  also run with multiple 1 and 2 (every shard holds resolved coefficients), and a grid large enough to populate the
+  second shard under the default multiple is run on the meshes with x, y <= 2 (x, y <= 4 in the thorough tier)."""
+  z, x, y = shape
+  v = [('small_bm1', SHAPE, 1), ('small_default', SHAPE, None)]
+  if full:
+    v.append(('small_bm2', SHAPE, 2))
+  if x <= 2 and y <= 2 and (x > 1 or y > 1):
+    v.append(('mid_default', MID_SHAPE, None))
+  if full and (x == 4 or y == 4) and x in (1, 2, 4) and y in (1, 2, 4):
+    v.append(('large_default', LARGE_SHAPE, None))
+  return v
+
+
 def _grid_unit(unit, rec):
+  for tag, gshape, bm in _grid_variants(tuple(unit['mesh']), unit['full']):
+    _grid_variant(unit, rec, tag, gshape, bm)
+
+
+def _grid_variant(unit, rec, vtag, gshape, bm):
   import jax, jax.numpy as jnp
   from dinosaur import filtering, time_integration as ti
   from mc.ref import sphere
   shape = tuple(unit['mesh'])
   mesh = _mesh(shape)
-  M, L, nlon, nlat = SHAPE
+  M, L, nlon, nlat = gshape
   rows = 2 * M - 1
-  ref = harness.make_grid(SHAPE, 'gauss', ('fast', 1, True, False), radius=1.3)
-  key0 = ('grid_build', list(shape))
-  ok, g = _guard(rec, shape, key0, lambda: harness.make_grid(SHAPE, 'gauss', ('fast', None, None, None), radius=1.3, mesh=mesh))
+  ref = harness.make_grid(gshape, 'gauss', ('fast', 1, True, False), radius=1.3)
+  key0 = ('grid_build', list(shape), vtag)
+  ok, g = _guard(rec, shape, key0, lambda: harness.make_grid(gshape, 'gauss', ('fast', bm, None, None), radius=1.3, mesh=mesh))
   if not ok:
     return
+  # how many x / y shards hold at least one resolved coefficient (reported: a vacuous sharding would show up here)
+  gm = np.asarray(g.mask, dtype=bool)
+  xs, ys = shape[1], shape[2]
+  rec.note('grid_variant:%s:x_shards_with_resolved_rows=%d_of_%d' % (vtag, sum(bool(gm[i * gm.shape[0] // xs:(i + 1) * gm.shape[0] // xs].any()) for i in range(xs)), xs))
+  rec.note('grid_variant:%s:y_shards_with_resolved_cols=%d_of_%d' % (vtag, sum(bool(gm[:, j * gm.shape[1] // ys:(j + 1) * gm.shape[1] // ys].any()) for j in range(ys)), ys))
   mask = sphere.real_mask(M, L)
   idx = [(i, l) for i in range(rows) for l in range(L) if mask[i, l]]
   n = len(idx)
@@ -217,9 +246,9 @@ def _grid_unit(unit, rec):
     return jax.jit(f)
   fr = ops(ref, filt_ref, stepf_ref)
   fm = ops(g, filt, stepf)
-  counts = [1, 2, 3, 5, 7] if unit['full'] else [1, 3, 5]
+  counts = ([1, 2, 3, 5, 7] if unit['full'] else [1, 3, 5]) if vtag.startswith('small') else [3]
   for k in counts:
-    key = ('grid_ops', list(shape), k)
+    key = ('grid_ops', list(shape), vtag, k)
     if not rec.want(key):
       continue
     worst = {}
@@ -287,7 +316,7 @@ def _implicit_unit(unit, rec):
     if not rec.want(key):
       continue
     c0 = harness.make_coords(SHAPE, b, impl=('fast', 1, True, False), radius=specs.radius)
-    ok, c1 = _guard(rec, shape, key, lambda: harness.make_coords(SHAPE, b, impl=('fast', None, None, None), radius=specs.radius, mesh=mesh))
+    ok, c1 = _guard(rec, shape, key, lambda: harness.make_coords(SHAPE, b, impl=('fast', 1, None, None), radius=specs.radius, mesh=mesh))
     if not ok:
       return
     res = {}
@@ -372,7 +401,7 @@ def _steps_unit(unit, rec):
       def build():
         if cls == 'ShallowWater':
           specs = sw.ShallowWaterSpecs.from_si(densities=np.linspace(0.7, 1.0, K) * scales.WATER_DENSITY)
-          c = harness.make_coords(SHAPE, None, impl=('fast', 1, True, False) if tag == 'single' else ('fast', None, None, None), radius=specs.radius, layers=K,
+          c = harness.make_coords(SHAPE, None, impl=('fast', 1, True, False) if tag == 'single' else ('fast', 1, None, None), radius=specs.radius, layers=K,
                                   mesh=None if tag == 'single' else mesh)
           g = c.horizontal
           orog = jnp.asarray(sphere.real_to_fast(np.pad(np.array([[0.0, 0.02]]), ((0, rows - 1), (0, L - 2))), g.modal_shape))
@@ -387,7 +416,7 @@ def _steps_unit(unit, rec):
             return pair[1]
           return c, jax.jit(run)
         specs = harness.pe_specs()
-        c = harness.make_coords(SHAPE, b, impl=('fast', 1, True, False) if tag == 'single' else ('fast', None, None, None), radius=specs.radius,
+        c = harness.make_coords(SHAPE, b, impl=('fast', 1, True, False) if tag == 'single' else ('fast', 1, None, None), radius=specs.radius,
                                 mesh=None if tag == 'single' else mesh)
         g = c.horizontal
         orog = np.zeros((rows, L)); orog[0, 1] = 2e-4; orog[1, 1] = 1.4e-4; orog[2, 2] = -0.6e-4
